@@ -454,6 +454,116 @@ def run_late(rep):
     rep.merge(part.result())
 
 
+# ---- members of dynamic instances ---------------------------------------------------------------------------------
+# `v` may be declared globally, in the template that holds the labels, and in each of two dynamic templates; a binder over the
+# instances of a dynamic template gives access to the declarations of that template only (w.v), bare names in the quantified
+# body are scoped as everywhere else, and nested binders of one name are a stack.
+DYN_LEVELS = ["global", "mlocal", "wlocal", "plocal"]
+DYN_UB = {"global": 10, "mlocal": 12, "wlocal": 40, "plocal": 41}
+DYN_SITES = [   # (label kind, text, expected bindings of the occurrences of v in source order: "w"/"p" = member of that template, "bare")
+    ("guard", "forall (w : Worker)(w.v >= 0)", ["w"]),
+    ("guard", "forall (w : Worker)(w.load >= 0 && v >= 1)", ["bare"]),
+    ("guard", "forall (w : Worker)(exists (w : Probe)(w.v >= 2) && w.v >= 3)", ["p", "w"]),
+    ("guard", "forall (w : Worker)(w.load >= 0) && v >= 4", ["bare"]),
+    ("guard", "forall (v : Worker)(v.load >= 5) && v >= 6", ["bare"]),
+    ("guard", "exists (w : Probe)(w.v >= 8 && forall (r : Worker)(r.v >= w.v))", ["p", "w", "p"]),
+    ("assignment", "m = (sum (w : Worker)(w.v + v))", ["w", "bare"]),
+    ("guard", "forall (w : Worker)(forall (w : Worker)(w.v >= 9) && w.v >= v)", ["w", "w", "bare"]),
+    ("guard", "v >= 11 && exists (w : Probe)(w.level >= v)", ["bare", "bare"]),
+    ("guard", "forall (w : Worker)(w.nosuch >= 0 && v >= 7)", None),     # always erroneous: only the diagnostics are compared
+]
+
+
+def dynamic_model(D):
+    d = lambda lv: "int[0,%d] v; " % DYN_UB[lv] if lv in D else ""      # noqa: E731
+    edges = []
+    for kind, text, _ in DYN_SITES:
+        edges.append(X.transition("id0", "id0", **{"assign" if kind == "assignment" else kind: text}))
+    return X.nta("dynamic Worker(int[0,3] wk); dynamic Probe(); " + d("global"),
+                 [X.template("Worker", params="int[0,3] wk", decl="int load = 1; " + d("wlocal"), locations=[X.location("w0", "Idle")], init="w0"),
+                  X.template("Probe", decl="int level = 1; " + d("plocal"), locations=[X.location("p0", "Wait")], init="p0"),
+                  X.template("Main", decl="int m; " + d("mlocal"), locations=[X.location("id0", "A")], init="id0", transitions=edges)],
+                 "M = Main(); system M;")
+
+
+def run_dynamic(arg):
+    part = engine.Part()
+    w = engine.worker("fast")
+    for bits in itertools.product((0, 1), repeat=len(DYN_LEVELS)):
+        D = {lv for lv, b in zip(DYN_LEVELS, bits) if b}
+        key = "dynamic:" + ("+".join(sorted(D)) or "none")
+        doc = dynamic_model(D)
+        r = X.run_docs(w, [doc], want=["dump"])[0]
+        rp = {"op": "xml", "buf": doc, "want": ["dump"], "declared_at": sorted(D)}
+        part.count()
+        if engine.check_crash(part, PID, r, key, rp):
+            continue
+        if r.get("exc") is not None or "dump" not in r:
+            part.violation("exception:" + str(r.get("exc")), "%s: %s" % (key, r.get("exc")), rp)
+            continue
+        ref = {"w": "wlocal" if "wlocal" in D else None, "p": "plocal" if "plocal" in D else None,
+               "bare": first(D, "mlocal", "global")}
+        edges = r["dump"]["templates"][0]["edges"]
+        for k, (kind, text, exp) in enumerate(DYN_SITES):
+            part.count()
+            part.nontrivial_case("%s:%s" % (key, text))
+            path = "/nta/template[3]/transition[%d]/label[1]" % (k + 1)
+            here = [e["msg"] for e in r["errors"] if e["path"] == path]
+            unk = [m for m in here if "Unknown_identifier" in m and m.endswith(" v")]
+            want = [ref[x] for x in (exp if exp is not None else ["bare"])]
+            n_unknown = sum(1 for x in want if x is None)
+            other = [m for m in here if m not in unk and not (exp is None and m.endswith(" nosuch"))]
+            if len(unk) != n_unknown or other:
+                part.outcome("dynamic:misbound")
+                part.violation("dynamic:diagnostics:%d:%s" % (k, "more" if len(unk) > n_unknown else "fewer" if len(unk) < n_unknown else "other"),
+                               "v declared at {%s}: label `%s` has %d uses of v without a declaration in scope, diagnostics there: %s"
+                               % (key, text, n_unknown, here), rp)
+                continue
+            if n_unknown or exp is None:
+                part.outcome("dynamic:reported-unknown")
+                continue
+            sx = edges[k]["guard" if kind == "guard" else "assign"] or ""
+            got = [next((lv for lv, u in DYN_UB.items() if u == int(ub)), "<ub%s>" % ub) for ub in
+                   re.findall(r"\(IDENTIFIER v:\(RANGE \(INT\) <\(CONSTANT:INT 0\)> <\(CONSTANT:INT (\d+)\)>", sx)]
+            if got != want:
+                part.outcome("dynamic:misbound")
+                part.violation("dynamic:misbound:%d:expected-%s:got-%s" % (k, "/".join(want), "/".join(got)),
+                               "v declared at {%s}: in `%s` the uses of v are bound to %s; scoping says %s" % (key, text, got, want), rp)
+            else:
+                part.outcome("dynamic:bound-as-scoped")
+        # SMC queries: bare names see globals only
+        qs = [("Pr[<=10](<> forall (w : Worker)(w.v >= 0 && v >= 1))", ["w", "g"]),
+              ("Pr[<=10](<> exists (w : Probe)(forall (w : Worker)(w.v >= 0) && w.v >= v))", ["w", "p", "g"])]
+        for q, exp in qs:
+            qr = w.call_safe({"op": "queries", "ctx": {"kind": "xml", "text": doc}, "items": [q], "symtypes": True}, timeout=60)
+            part.count()
+            qrp = {"op": "queries", "ctx": {"kind": "xml", "text": doc}, "items": [q], "symtypes": True}
+            if qr.get("died"):
+                engine.check_crash(part, PID, qr, "query " + q, qrp)
+                continue
+            part.nontrivial_case(key + ":" + q)
+            x = qr["results"][0]
+            want = [{"w": ref["w"], "p": ref["p"], "g": first(D, "global")}[e] for e in exp]
+            if None in want:
+                unk = [e for e in x.get("err", []) if "Unknown_identifier" in e["msg"] and e["msg"].endswith(" v")]
+                if len(unk) != sum(1 for e in want if e is None):
+                    part.outcome("dynamic:query-misbound")
+                    part.violation("dynamic:query-diagnostics", "v declared at {%s}: query `%s`: %d uses have no declaration, diagnostics %s"
+                                   % (key, q, sum(1 for e in want if e is None), [e["msg"] for e in x.get("err", [])]), qrp)
+                else:
+                    part.outcome("dynamic:query-unknown")
+                continue
+            got = [next((lv for lv, u in DYN_UB.items() if u == int(ub)), "<ub%s>" % ub) for ub in
+                   re.findall(r"\(IDENTIFIER v:\(RANGE \(INT\) <\(CONSTANT:INT 0\)> <\(CONSTANT:INT (\d+)\)>", x.get("sexpr") or "")]
+            if got != want:
+                part.outcome("dynamic:query-misbound")
+                part.violation("dynamic:query-misbound:expected-%s:got-%s" % ("/".join(want), "/".join(got)),
+                               "v declared at {%s}: query `%s` binds v to %s, scoping says %s (%s)" % (key, q, got, want, x.get("err")), qrp)
+            else:
+                part.outcome("dynamic:query-bound")
+    return part.result()
+
+
 def main():
     t = engine.tier()
     n_sub = sum(1 for _ in subsets())
@@ -465,13 +575,18 @@ def main():
                         "queries (v, P.v, P.w with argument substitution, T2.v); reference lexical resolver R3. Error-recovery histories: the same "
                         "use sites after each of %d erroneous declarations (missing return, unknown names, syntax errors inside "
                         "statements / nested blocks / quantifiers / iterations / parameter lists / initialisers, duplicates) that declare "
-                        "the name in scopes of their own, placed at %d positions." % (n_sub, len(DISTURBANCES), len(PLACES)))
+                        "the name in scopes of their own, placed at %d positions. Dynamic instances: 16 subsets of {global, enclosing "
+                        "template, two dynamic templates} x %d labels with quantifiers over dynamic instances (member of the bound "
+                        "instance, bare names in the body and after it, nested binders of one name, a binder named like the variable, "
+                        "a failed member lookup followed by a bare name) + 2 SMC queries."
+                        % (n_sub, len(DISTURBANCES), len(PLACES), len(DYN_SITES)))
     n = engine.ncpu()
     for res in engine.pmap(run_shard, [(i, n, t) for i in range(n)]):
         rep.merge(res)
     for res in engine.pmap(run_disturbed, [(i, n, t) for i in range(n)]):
         rep.merge(res)
     run_late(rep)
+    rep.merge(run_dynamic(None))
     rep.assumptions = ["the declaration a use is bound to is identified by the upper bound of the symbol's declared range",
                        "a parameter and a local of the same name in one frame are a duplicate definition and are not enumerated"]
     sys.exit(rep.finish())
